@@ -117,6 +117,10 @@ type Byz struct {
 	shadowVec    []byte
 	truncShares  map[int][]byte // "truncated vector" attack (see makeTruncated), nil if off
 	truncVec     []byte
+	held         []*Msg // messages of the real instance held back, sent later in the round (own order of broadcasts changed)
+	faulted      []int  // receivers whose private share was omitted / replaced / malformed (the injector prefers them)
+	torsionFor   int    // >= 0: torsion-cancelling vector attack aimed at this participant
+	bias         map[string]int // swarm: message kind -> action this participant prefers in this run (1 omit .. 6 hold back)
 	floor        int // broadcasts never land in an earlier round than a previous one of the same sender
 	crashAt      int // event count at which the participant crash-stops (0 = never)
 	crashed      bool
@@ -161,6 +165,7 @@ type World struct {
 	starved     int
 	script      [5][]int // script[round]: Byzantine indices with one pending injection each
 	maxRound    int
+	injectRound int
 
 	// bookkeeping for C08 expectations (labels, never recomputed curve points)
 	vecFirst     map[int]*vecInfo          // dealer -> first vector broadcast
